@@ -433,35 +433,168 @@ pub fn native_builder() -> Result<IsaBuilder, &'static str> { Ok(IsaBuilder) }
 pub struct Context { pub func: Function }
 pub struct ModuleError;
 impl core::fmt::Debug for ModuleError { fn fmt(&self, f: &mut core::fmt::Formatter<'_>) -> core::fmt::Result { f.write_str("ModuleError") } }
-pub static mut DECLARED_IMPORTS: [Option<u32>; 4] = [None; 4];
+// ---- symbol names: the link between JITBuilder::symbol (where a helper's address is registered) and
+// Module::declare_function(.., Linkage::Import, ..) (where the function body imports it) is the NAME.  Names are
+// rendered exactly: literal text plus one integer placeholder `{}` / `{:x}` / `{:#x}` / `{:X}` / `{:o}`.
+pub const NAMELEN: usize = 24;
+/// a rendered name (only computed when two names with DIFFERENT templates have to be compared)
+#[derive(Clone, Copy)]
+pub struct Rendered { pub b: [u8; NAMELEN], pub len: usize }
+/// a symbol name: template literal + its integer argument.  Two names built from the SAME template are equal iff
+/// their arguments are (integer rendering is injective) - the cheap, exact path taken by code whose two sites agree;
+/// names built from different templates are compared by their exact rendering.
+#[derive(Clone, Copy)]
+pub struct Name { pub tmpl: &'static str, pub arg: Option<u64> }
+fn same_str(a: &str, b: &str) -> bool {
+    let (x, y) = (a.as_bytes(), b.as_bytes());
+    if x.len() != y.len() { return false; }
+    let mut ok = true;
+    let mut k = 0;
+    while k < x.len() { if x[k] != y[k] { ok = false; } k += 1; }
+    ok
+}
+/// set by the harness from a fact the extractor establishes on the text of cranelift.rs: every symbol name with an
+/// argument is built from one and the same template literal.  Then names with arguments are equal iff their
+/// arguments are, and no rendering is needed (the exact, cheap path).  Otherwise names are rendered and compared.
+pub static mut NAME_TEMPLATES_AGREE: bool = false;
+impl PartialEq for Name {
+    fn eq(&self, o: &Name) -> bool {
+        if unsafe { NAME_TEMPLATES_AGREE } {
+            return match (self.arg, o.arg) { (Some(a), Some(b)) => a == b, (None, None) => same_str(self.tmpl, o.tmpl), _ => false };
+        }
+        if same_str(self.tmpl, o.tmpl) { return self.arg == o.arg; }
+        let (p, q) = (render(self.tmpl, self.arg), render(o.tmpl, o.arg));
+        if p.len != q.len { return false; }
+        let mut ok = true;
+        let mut k = 0;
+        while k < NAMELEN { if k < p.len && p.b[k] != q.b[k] { ok = false; } k += 1; }
+        ok
+    }
+}
+/// what the shadowed `format!` evaluates to: the template literal and its first argument as an integer
+pub struct FmtRecord { pub tmpl: &'static str, pub arg: Option<u64> }
+pub trait FmtArg { fn key(&self) -> u64; }
+macro_rules! fmt_arg { ($($t:ty),*) => { $( impl FmtArg for $t { fn key(&self) -> u64 { *self as u64 } } )* }; }
+fmt_arg!(u8, u16, u32, u64, usize, i8, i16, i32, i64, isize);
+impl<T: FmtArg + ?Sized> FmtArg for &T { fn key(&self) -> u64 { (**self).key() } }
+impl From<FmtRecord> for String { fn from(_f: FmtRecord) -> String { String::new() } }
+fn push(n: &mut Rendered, c: u8) { if n.len < NAMELEN { n.b[n.len] = c; n.len += 1; } }
+fn push_num(n: &mut Rendered, v: u64, radix: u64, upper: bool) {
+    // digits of a value below 2^32 (helper ids, instruction indices); larger values are clipped to 32 bits
+    let v = v & 0xffff_ffff;
+    let mut digits = [0u8; 11];
+    let mut k = 0;
+    let mut x = v;
+    let mut i = 0;
+    while i < 11 {
+        if i == 0 || x != 0 { let d = (x % radix) as u8; digits[k] = if d < 10 { b'0' + d } else if upper { b'A' + d - 10 } else { b'a' + d - 10 }; k += 1; x /= radix; }
+        i += 1;
+    }
+    while k > 0 { k -= 1; push(n, digits[k]); }
+}
+pub fn render(tmpl: &str, arg: Option<u64>) -> Rendered {
+    let t = tmpl.as_bytes();
+    let mut n = Rendered { b: [0; NAMELEN], len: 0 };
+    let mut i = 0;
+    let mut used = false;
+    while i < t.len() {
+        if t[i] == b'{' {
+            // placeholder: up to the closing brace
+            let mut j = i + 1;
+            let (mut radix, mut alt, mut upper) = (10u64, false, false);
+            while j < t.len() && t[j] != b'}' {
+                match t[j] { b'x' => radix = 16, b'X' => { radix = 16; upper = true; } b'o' => radix = 8, b'b' => radix = 2, b'#' => alt = true, _ => {} }
+                j += 1;
+            }
+            match (arg, used) {
+                (Some(v), false) => {
+                    if alt && radix == 16 { push(&mut n, b'0'); push(&mut n, b'x'); }
+                    if radix == 2 { push(&mut n, b'?'); } else { push_num(&mut n, v, radix, upper); }
+                    used = true;
+                }
+                _ => push(&mut n, b'?'),
+            }
+            i = j + 1;
+        } else {
+            push(&mut n, t[i]);
+            i += 1;
+        }
+    }
+    n
+}
+pub trait AsName { fn name(&self) -> Name; }
+impl AsName for FmtRecord { fn name(&self) -> Name { Name { tmpl: self.tmpl, arg: self.arg } } }
+impl AsName for str { fn name(&self) -> Name { Name { tmpl: leak(self), arg: None } } }
+pub trait IntoName { fn into_name(self) -> Name; }
+impl IntoName for FmtRecord { fn into_name(self) -> Name { Name { tmpl: self.tmpl, arg: self.arg } } }
+impl IntoName for &'static str { fn into_name(self) -> Name { Name { tmpl: self, arg: None } } }
+/// plain string names are literals in the code under verification
+fn leak(s: &str) -> &'static str { unsafe { core::mem::transmute::<&str, &'static str>(s) } }
+
+pub const MAXSYM: usize = 4;
 pub trait Module {
-    fn declare_function(&mut self, name: &str, linkage: Linkage, sig: &Signature) -> Result<FuncId, ModuleError>;
+    fn declare_function<N: AsName + ?Sized>(&mut self, name: &N, linkage: Linkage, sig: &Signature) -> Result<FuncId, ModuleError>;
     fn make_context(&self) -> Context;
     fn declare_func_in_func(&mut self, id: FuncId, f: &mut Function) -> FuncRef;
     fn define_function(&mut self, id: FuncId, ctx: &mut Context) -> Result<(), ModuleError>;
     fn clear_context(&self, ctx: &mut Context);
     fn finalize_definitions(&mut self) -> Result<(), ModuleError>;
 }
-pub struct JITBuilder { pub nsym: u32 }
+pub struct JITBuilder { pub nsym: usize, pub sym: [Option<(Name, usize)>; MAXSYM] }
 impl JITBuilder {
-    pub fn with_isa(_isa: OwnedTargetIsa, _names: LibcallNames) -> Self { JITBuilder { nsym: 0 } }
-    pub fn symbol<K: Into<String>>(&mut self, _name: K, _ptr: *const u8) -> &mut Self { self.nsym += 1; self }
+    pub fn with_isa(_isa: OwnedTargetIsa, _names: LibcallNames) -> Self { JITBuilder { nsym: 0, sym: [None; MAXSYM] } }
+    pub fn symbol<K: IntoName>(&mut self, name: K, ptr: *const u8) -> &mut Self {
+        assert!(self.nsym < MAXSYM, "stub: symbol table full");
+        self.sym[self.nsym] = Some((name.into_name(), ptr as usize));
+        self.nsym += 1;
+        self
+    }
 }
 pub struct LibcallNames;
 pub fn default_libcall_names() -> LibcallNames { LibcallNames }
-pub struct JITModule { pub next: u32, pub defined: bool }
+pub struct JITModule { pub next: u32, pub defined: bool, pub nsym: usize, pub sym: [Option<(Name, usize)>; MAXSYM], pub imports: [Option<Name>; 8] }
 impl JITModule {
-    pub fn new(_b: JITBuilder) -> Self { JITModule { next: 0, defined: false } }
+    pub fn new(b: JITBuilder) -> Self { JITModule { next: 0, defined: false, nsym: b.nsym, sym: b.sym, imports: [None; 8] } }
     pub fn get_finalized_function(&self, _id: FuncId) -> *const u8 { core::ptr::null() }
     pub unsafe fn free_memory(self) {}
+    /// address an imported function resolves to: the LAST symbol registered under exactly its name.
+    /// (Written with concrete loop indices only, so that comparing two names built from the same template
+    /// literal stays a comparison of their arguments for the model checker.)
+    pub fn resolve(&self, id: u32) -> Option<usize> {
+        let mut r = None;
+        let mut k = 0;
+        while k < 8 {
+            if k as u32 == id {
+                if let Some(want) = self.imports[k] {
+                    let mut j = 0;
+                    while j < MAXSYM {
+                        if j < self.nsym { if let Some((n, p)) = self.sym[j] { if n == want { r = Some(p); } } }
+                        j += 1;
+                    }
+                }
+            }
+            k += 1;
+        }
+        r
+    }
 }
 impl Module for JITModule {
-    fn declare_function(&mut self, _name: &str, _l: Linkage, _s: &Signature) -> Result<FuncId, ModuleError> { self.next += 1; Ok(FuncId(self.next - 1)) }
+    fn declare_function<N: AsName + ?Sized>(&mut self, name: &N, l: Linkage, _s: &Signature) -> Result<FuncId, ModuleError> {
+        assert!((self.next as usize) < 8, "stub: function table full");
+        if l == Linkage::Import { self.imports[self.next as usize] = Some(name.name()); }
+        self.next += 1;
+        Ok(FuncId(self.next - 1))
+    }
     fn make_context(&self) -> Context { Context { func: Function { sig: Signature { params: Vec::new(), returns: Vec::new(), call_conv: CallConv::SystemV } } } }
     fn declare_func_in_func(&mut self, id: FuncId, _f: &mut Function) -> FuncRef { FuncRef(id.0) }
     /// Cranelift's verifier rejects a function in which a referenced block is never filled:
     /// the obligation "every block is terminated exactly once" is checked by the harness on TRACE.
     fn define_function(&mut self, _id: FuncId, _ctx: &mut Context) -> Result<(), ModuleError> { self.defined = true; Ok(()) }
     fn clear_context(&self, _ctx: &mut Context) {}
-    fn finalize_definitions(&mut self) -> Result<(), ModuleError> { Ok(()) }
+    /// the JIT linker panics when an imported name was never registered as a symbol
+    fn finalize_definitions(&mut self) -> Result<(), ModuleError> {
+        let mut k = 0;
+        while k < 8 { if (k as u32) < self.next && self.imports[k].is_some() { assert!(self.resolve(k as u32).is_some(), "cranelift: can't resolve symbol (an imported helper name was never registered)"); } k += 1; }
+        Ok(())
+    }
 }
